@@ -260,11 +260,14 @@ def tagAtoms (isIn raw : Bool) (f : TagFilter) : List Atom :=
 inductive Frag where
   | raw (b : Bytes)     -- text written by the builder itself (keywords, column names, numbers, punctuation)
   | lit (s : Bytes)     -- `'` ++ escape s ++ `'`
+  | qraw (s : Bytes)    -- `'` ++ s ++ `'` : text put between quotes WITHOUT escaping (fmt.Sprintf("'%s'", …): the LOD's
+                        -- time-zone name in the 1-month time column; configuration, not a filter value)
 deriving DecidableEq, Repr
 
 def Frag.bytes : Frag → Bytes
   | .raw b => b
   | .lit s => q :: (escape s ++ [q])
+  | .qraw s => q :: (s ++ [q])
 
 def flatten : List Frag → Bytes
   | [] => []
@@ -274,11 +277,13 @@ def lits : List Frag → List Bytes
   | [] => []
   | .raw _ :: fs => lits fs
   | .lit s :: fs => s :: lits fs
+  | .qraw s :: fs => s :: lits fs
 
 def skel : List Frag → Bytes
   | [] => []
   | .raw b :: fs => b ++ skel fs
   | .lit _ :: fs => 63 :: skel fs
+  | .qraw _ :: fs => 63 :: skel fs
 
 def commaInts : List Int → Bytes
   | [] => []
@@ -396,5 +401,179 @@ def evalWhere (re : Bytes → Bytes → Bool) (c : Cfg) (fin fnotin : Filters) (
   baseSel c r && metricSel c r.metric &&
   (List.range maxTags).all (fun x => tagSel re c true x (fin.get x) r) &&
   (List.range maxTags).all (fun x => tagSel re c false x (fnotin.get x) r)
+
+/-! ### the complete query texts (buildSeriesQuery, buildTagValuesQuery, buildTagValueIDsQuery) -/
+
+/-- what the rest of the query text reads from queryBuilder, LOD and the `settings` argument -/
+structure QCfg where
+  step : Int                 -- lod.StepSec
+  utcOffset : Int            -- b.utcOffset
+  loc : Bytes                -- lod.Location.String()
+  sharded : Bool             -- b.metric.Sharded()
+  whats : List Nat           -- b.what[i].What, the 7 slots (data_model.DigestWhat as a number)
+  minHost : Bool
+  maxHost : Bool
+  sort : Nat                 -- 0 sortNone, 1 sortAscending, 2 sortDescending
+  settings : Bytes           -- the `settings` argument (Config.BuildSelectSettings)
+  tagIndex : Int             -- b.tag.Index (tag-values queries)
+  tagRaw : Bool              -- b.tag.Raw()
+  tagRaw64 : Bool            -- b.tag.Raw64()
+  numResults : Int
+deriving DecidableEq, Repr
+
+def stepMonth : Int := 2678400
+
+/-- data_model.LODTables[Version6][step]; a step that is not in the map gives the empty string -/
+def lodTable (step : Int) : Bytes :=
+  if step == 1 || step == 5 || step == 15 then str "statshouse_v6_1s"
+  else if step == 60 || step == 300 || step == 900 then str "statshouse_v6_1m"
+  else if step == 3600 || step == 14400 || step == 86400 || step == 604800 || step == 2678400 then str "statshouse_v6_1h"
+  else []
+
+/-- preKeyTableName = lod.Table(b.metric.Sharded()) -/
+def tableName (e : QCfg) : Bytes := lodTable e.step ++ (if e.sharded then [] else str "_dist")
+
+/-- selAlias -/
+def selAlias (c : Cfg) (x : Nat) : Bytes :=
+  if isPreKeyTag c x then str "_prekey"
+  else if isRaw64 c x then str "_tag" ++ natBytes x
+  else colInt c x
+
+/-- writeSelectInt: selectIntExpr, plus ` AS <alias>` when it is an expression -/
+def selectIntText (c : Cfg) (x : Nat) : Bytes :=
+  if isPreKeyTag c x then str "_prekey"
+  else if isRaw64 c x then raw64Expr c x ++ str " AS " ++ selAlias c x
+  else colInt c x
+
+/-- writeSelectTime -/
+def timeFrags (e : QCfg) : List Frag :=
+  if e.step == stepMonth then
+    [.raw (str "toInt64(toDateTime(toStartOfInterval(time,INTERVAL 1 MONTH,"), .qraw e.loc, .raw (str "),"), .qraw e.loc,
+     .raw (str "))")]
+  else
+    [.raw (str "toInt64(toStartOfInterval(time+" ++ itoa e.utcOffset ++ str ",INTERVAL " ++ itoa e.step ++ str " second))-" ++
+       itoa e.utcOffset)]
+
+/-- state of the loop in writeSelectValues: `has`, the column counter `j`, the columns written so far -/
+structure SelSt where
+  has : List Nat
+  j : Nat
+  cols : List Bytes
+deriving DecidableEq, Repr
+
+def valCol (expr : Bytes) (j : Nat) : Bytes := expr ++ str " AS _val" ++ natBytes j
+
+def addCol (expr : Bytes) (s : SelSt) : SelSt := { s with j := s.j + 1, cols := s.cols ++ [valCol expr s.j] }
+
+/-- `if !has[k] { write; has[k] = true; j++ }` -/
+def ensureCol (k : Nat) (expr : Bytes) (s : SelSt) : SelSt :=
+  if s.has.contains k then s else { addCol expr s with has := k :: s.has }
+
+def sumE : Bytes := str "toFloat64(sum(sum))"
+def countE : Bytes := str "toFloat64(sum(count))"
+
+/-- body of the switch for one digest kind (1 avg, 2 count, 3 max, 4 min, 5 sum, 6 percentile, 7 stddev, 8 cardinality,
+    9 unique); `none` = "unsupported operation kind" -/
+def selKind (w : Nat) (s : SelSt) : Option SelSt :=
+  if w == 1 then some (ensureCol 2 countE (ensureCol 5 sumE s))
+  else if w == 2 then some (addCol countE s)
+  else if w == 3 then some (addCol (str "toFloat64(max(max))") s)
+  else if w == 4 then some (addCol (str "toFloat64(min(min))") s)
+  else if w == 5 then some (addCol sumE s)
+  else if w == 7 then some (addCol (str "toFloat64(sum(sumsquare))") (ensureCol 2 countE (ensureCol 5 sumE s)))
+  else if w == 6 then some (addCol (str "quantilesTDigestMergeState(0.5)(percentiles)") s)
+  else if w == 8 then some (addCol (str "toFloat64(sum(1))") s)
+  else if w == 9 then some (addCol (str "uniqMergeState(uniq_state)") s)
+  else none
+
+def selStep (w : Nat) (s : SelSt) : Option SelSt :=
+  if s.has.contains w then some s
+  else match selKind w s with
+    | none => none
+    | some s' => some { s' with has := w :: s'.has }
+
+def selLoop : List Nat → SelSt → Option SelSt
+  | [], s => some s
+  | w :: ws, s =>
+    match selStep w s with
+    | none => none
+    | some s' => selLoop ws s'
+
+/-- the slots up to the first unspecified one (tsWhat.specifiedAt) -/
+def specified (whats : List Nat) : List Nat := (whats.take 7).takeWhile (fun w => w != 0)
+
+def hostCols (e : QCfg) (has : List Nat) : List Bytes :=
+  (if e.minHost then [str "argMinMergeState(min_host) AS _minHost"] else []) ++
+  (if e.maxHost then
+     [(if has.contains 3 then str "argMaxMergeState(max_host)" else str "argMaxMergeState(max_count_host)") ++ str " AS _maxHost"]
+   else [])
+
+def shardIndex : Int := -3
+
+/-- writeSelectTagsV3: one item for the shard pseudo-tag, two (int, string) for a real tag -/
+def tagCols (c : Cfg) : List Int → List Bytes
+  | [] => []
+  | x :: xs =>
+    (if x == shardIndex then [str "_shard_num"] else [selectIntText c x.toNat, colStr x.toNat]) ++ tagCols c xs
+
+/-- every later item of the select list is preceded by a comma -/
+def commaItems : List Bytes → Bytes
+  | [] => []
+  | a :: rest => 44 :: (a ++ commaItems rest)
+
+/-- writeByTagsDir -/
+def byTags (c : Cfg) (dir : Bytes) : List Int → Bytes
+  | [] => []
+  | x :: xs =>
+    (if x == shardIndex then str ",_shard_num" ++ dir
+     else 44 :: (selAlias c x.toNat ++ dir ++ 44 :: (colStr x.toNat ++ dir))) ++ byTags c dir xs
+
+def dirText (e : QCfg) : Bytes := if e.sort == 2 then str " DESC" else []
+
+def maxSeriesRows : Int := 10000000
+def maxTableRows : Int := 100000
+
+/-- everything buildSeriesQuery writes after the where-clause -/
+def seriesTail (c : Cfg) (e : QCfg) : Bytes :=
+  str " GROUP BY _time" ++ byTags c [] c.groupBy ++
+  (if e.sort == 0 then str " LIMIT " ++ itoa maxSeriesRows
+   else str " ORDER BY _time" ++ dirText e ++ byTags c (dirText e) c.groupBy ++ str " LIMIT " ++ itoa maxTableRows) ++
+  e.settings
+
+/-- buildSeriesQuery; `none` = the builder returns an error (unsupported operation kind) -/
+def seriesFrags (c : Cfg) (e : QCfg) (fin fnotin : Filters) : Option (List Frag) :=
+  match selLoop (specified e.whats) { has := [], j := 0, cols := [] } with
+  | none => none
+  | some s =>
+    some (.raw (str "SELECT ") :: (timeFrags e ++
+      (.raw (str " AS _time" ++ commaItems (s.cols ++ hostCols e s.has ++ tagCols c c.groupBy) ++ str " FROM " ++ tableName e) ::
+        (whereFrags c fin fnotin ++ [.raw (seriesTail c e)]))))
+
+/-- b.tag.Index after `if b.tag.Index == StringTopTagIndex { b.tag.Index = StringTopTagIndexV3 }` -/
+def tagX (e : QCfg) : Nat := if e.tagIndex == -1 then 47 else e.tagIndex.toNat
+
+/-- tagValuesQuery.hasStr -/
+def hasStr (c : Cfg) (e : QCfg) : Bool := !e.tagRaw && !e.tagRaw64 && c.mode != 2
+
+/-- tagValuesQuery.writeByTags -/
+def tvByTags (c : Cfg) (e : QCfg) : Bytes :=
+  selAlias c (tagX e) ++ (if hasStr c e then 44 :: colStr (tagX e) else [])
+
+/-- buildTagValuesQueryEx (modes 1 and 2) -/
+def tagValuesFrags (c : Cfg) (e : QCfg) (fin fnotin : Filters) : List Frag :=
+  .raw (str "SELECT " ++ selectIntText c (tagX e) ++ (if hasStr c e then 44 :: colStr (tagX e) else []) ++
+        str ",toFloat64(sum(count)) AS _count FROM " ++ tableName e) ::
+    (whereFrags c fin fnotin ++
+      [.raw (str " GROUP BY " ++ tvByTags c e ++ str " HAVING _count>0 ORDER BY _count DESC," ++ tvByTags c e ++
+             str " LIMIT " ++ itoa (e.numResults + 1) ++ e.settings)])
+
+/-- the query text for the builder's mode -/
+def queryFrags (c : Cfg) (e : QCfg) (fin fnotin : Filters) : Option (List Frag) :=
+  if c.mode == 0 then seriesFrags c e fin fnotin else some (tagValuesFrags c e fin fnotin)
+
+def queryBytes (c : Cfg) (e : QCfg) (fin fnotin : Filters) : Option Bytes :=
+  match queryFrags c e fin fnotin with
+  | none => none
+  | some fs => some (flatten fs)
 
 end SH.Sql
